@@ -3,6 +3,7 @@ import Frugal.Proofs.SizeExact
 import Frugal.Proofs.ReaderProps
 import Frugal.Proofs.SecondHop
 import Frugal.Proofs.HoldersRead
+import Frugal.Proofs.ReadTyped
 import Frugal.Proofs.DecodeRefine
 import Frugal.Props.Instances
 namespace Frugal.C11
@@ -77,6 +78,36 @@ theorem denotation_lists_unknown (S : Schema) (sid : Nat) (vs : List Val) (fs : 
       .strct (toWireFieldsH S (S.get sid) (S.get sid).fields vs ++ unknownOnly (S.get sid) fs) := by
   simp only [toWireH, unknownBytes_eq_ser]
   rw [holderFields_ser _ (wfFields_sublist _ _ (unknownOnly_sublist _ fs) hw)]
+
+/-- **an intermediary with an older schema loses nothing.**  For every schema without `nocopy` fields
+    satisfying the side conditions of C01 (`S.rtSide`), every well-formed message whose bool bytes are
+    0 / 1 (`canonBoolsFields`; the decoder stores any other byte into a Go bool as it is), any trailing
+    bytes, and every typed destination whose holders are field lists: if `DecodeObject` accepts the
+    message then the value it returns is a typed value of the struct (`hasTy`, type soundness of the
+    decoder: Proofs/ReadTyped.lean) all of whose holders are field lists, so `EncodeObject` applied to
+    it writes the serialisation of a well-formed Thrift struct — its denotation `toWireH`, in which
+    every struct at every nesting level carries, after the fields its own schema writes, the fields
+    its holder retained (`denotation_lists_unknown`: the unrecognised fields of the message that
+    struct was read from, unchanged and in message order). -/
+theorem intermediary_loses_nothing (S : Schema) (hS : S.ok = true) (hside : S.rtSide)
+    (hdf : ∀ sid, ∀ f ∈ (S.get sid).fields, ∀ d, f.dflt = some d → fitH d = true)
+    (sid : Nat) (fs : List (Nat × TVal)) (trailing : Bytes) (dest w : Val) (n : Nat)
+    (hw : wfFields fs = true) (hc : canonBoolsFields fs = true)
+    (hdt : hasTy S (.strct sid) dest = true) (hdh : fitH dest = true)
+    (h : decodeM Generated.params S sid (ser (.strct fs) ++ trailing) dest = .ok (w, n)) :
+    hasTy S (.strct sid) w = true ∧ fitH w = true ∧
+    appendM Generated.params S sid w = ser (toWireH S (.strct sid) w) ∧
+    wf (toWireH S (.strct sid) w) = true := by
+  have hfit := decoded_holders_are_field_lists S hS hdf sid fs trailing dest w n hw hdh h
+  rw [decodeM_refines Instances.params_valid S hS sid fs trailing _ hw] at h
+  obtain ⟨w0, h0, e⟩ := mapv_ok_inv _ _ _ h
+  simp only [Prod.mk.injEq] at e
+  obtain ⟨rfl, _⟩ := e
+  have hty := readMessage_typed Generated.params S hS hside sid fs trailing.length dest _ hw hc hdt h0
+  refine ⟨hty, hfit, ?_, toWireH_wf S hS _ (.strct sid) rfl rfl hty hfit⟩
+  unfold appendM
+  rw [appendAny_eq Instances.params_valid S hS _ (.strct sid) rfl hty]
+  exact refEnc_eq_serH S hS _ (.strct sid) rfl rfl hty (fitH_holdersOK _ hfit)
 
 /-- the recognised fields are decoded as if the unknown ones were not there: whenever a message is
     read successfully, the same message without its unrecognised fields — wherever it sits in a
